@@ -12,7 +12,7 @@
     [inc_end m g n] / [hh_end g n] = n lies on an included / on an H-H bond, [charge_changed a] = the two charges in typesGH differ.
     Theorems 13-17: the RadiusExpand helpers. *)
 From Coq Require Import List NArith ZArith Bool.
-From SK Require Import lib.LGraph lib.C01_GraphLemmas model.C01_Model model.C01_Opts model.C02_Model model.C02_Store model.C02_Api proof.C02_Store proof.C02_StoreCtx proof.C02_StoreEquiv proof.C02_StoreNest proof.C02_Api proof.C02_Proof proof.C02_Opts proof.C02_OptsEquiv proof.C02_Ctx proof.C02_Lre proof.C02_LreTrace proof.C02_Sides proof.C02_Sides2 proof.C02_CtxEquiv proof.C02_CtxCentre proof.C02_CtxNest model.C01_String proof.C01_StringEH proof.C02_ExplicitH.
+From SK Require Import lib.LGraph lib.C01_GraphLemmas model.C01_Model model.C01_Opts model.C02_Model model.C02_Store model.C02_Api proof.C02_Store proof.C02_StoreCtx proof.C02_StoreEquiv proof.C02_StoreNest proof.C02_Api model.C02_Compare proof.C02_Compare proof.C02_Proof proof.C02_Opts proof.C02_OptsEquiv proof.C02_Ctx proof.C02_Lre proof.C02_LreTrace proof.C02_Sides proof.C02_Sides2 proof.C02_CtxEquiv proof.C02_CtxCentre proof.C02_CtxNest model.C01_String proof.C01_StringEH proof.C02_ExplicitH.
 (* [extract_k_S] in section 28 is the definition of model/C02_Store.v (proof/C02_Proof.v has a lemma of that name) *)
 From SK Require Import model.C02_Store.
 Import ListNotations.
@@ -640,3 +640,44 @@ Theorem C02_ctxS_of_ctx : forall g : sits, wf g -> forall k k', (1 <= k)%nat -> 
   geq (extract_k_S (extract_k_S g k') k) (extract_k_S g k).
 Proof. exact ctxS_of_ctx. Qed.
 Print Assumptions C02_ctxS_of_ctx.
+
+(** 36. compare_graphs(graph1, graph2, node_attrs, edge_attrs) of its_decompose.py ([compare_graphs_x], model/C02_Compare.v):
+        True iff the two graphs have the same atoms, equal selected labels (absent = None), the same bonded pairs and equal selected
+        bond attributes; labelled-graph equality implies True under every selection, and with every attribute selected True is
+        exactly labelled-graph equality; the library's own comparator accepts the centre of a centre (the idempotence clause). *)
+Theorem C02_compare_graphs : forall NA EA (g1 g2 : xits), wf g1 -> wf g2 ->
+  (compare_graphs_x NA EA g1 g2 = true <->
+   (forall n, In n (node_ids g1) <-> In n (node_ids g2)) /\
+   (forall n a b, label g1 n = Some a -> label g2 n = Some b -> sel_attr NA a = sel_attr NA b) /\
+   (forall u v, adj g1 u v <> None <-> adj g2 u v <> None) /\
+   (forall u v x y, adj g1 u v = Some x -> adj g2 u v = Some y -> sel_edge EA x = sel_edge EA y)).
+Proof. exact compare_graphs_spec. Qed.
+Print Assumptions C02_compare_graphs.
+
+Theorem C02_compare_all_is_equality : forall g1 g2 : xits, wf g1 -> wf g2 ->
+  (compare_graphs_x K_all E_all g1 g2 = true <-> geq g1 g2).
+Proof. exact compare_all_geq. Qed.
+Print Assumptions C02_compare_all_is_equality.
+
+Theorem C02_compare_rc_idem : forall NA EA K d m (g : xits), k_el K = true -> k_gh K = true -> wf g ->
+  compare_graphs_x NA EA (get_rc_x K d m (get_rc_x K d m g)) (get_rc_x K d m g) = true.
+Proof. exact compare_rc_idem. Qed.
+Print Assumptions C02_compare_rc_idem.
+
+(** 37. _add_bond_order_changes (the "step 1" helper of the older get_rc, still in its_decompose.py, no caller): exactly the bonds
+        whose two orders differ (standard_order is not consulted) with order and standard_order only, exactly their endpoints with the
+        selected labels; where standard_order is zero exactly for equal orders these are the bonds of get_rc's first pass. *)
+Theorem C02_add_bond_order_changes : forall K (g : xits), wf g ->
+  (forall u v y, find_edge u v (snd (add_bond_order_changes K g)) = Some y <->
+                 exists x, adj g u v = Some x /\ e_G (fst x) <> e_H (fst x) /\ y = out_edge_rec x) /\
+  (forall n b, assoc n (fst (add_bond_order_changes K g)) = Some b <->
+               exists a, label g n = Some a /\ b = sel_attr K a /\
+                         exists u v x, In (u, v, x) (gedges g) /\ e_G (fst x) <> e_H (fst x) /\ (n = u \/ n = v)).
+Proof. exact add_bond_order_changes_spec. Qed.
+Print Assumptions C02_add_bond_order_changes.
+
+Theorem C02_add_bond_order_changes_is_pass1 : forall K (g : xits), wf g ->
+  (forall u v x, In (u, v, x) (gedges g) -> (e_std (fst x) = 0 <-> e_G (fst x) = e_H (fst x))) ->
+  forall u v, find_edge u v (snd (add_bond_order_changes K g)) <> None <-> find_edge u v (snd (rc_pass1 K false g)) <> None.
+Proof. exact add_bond_order_changes_is_pass1. Qed.
+Print Assumptions C02_add_bond_order_changes_is_pass1.
